@@ -37,6 +37,20 @@ func buildHistory(rng *cq.Rng, events [][]byte, cacheSize uint16) (*histRun, str
 		if v+uint64(k) > uint64(len(events)) {
 			k = len(events) - int(v)
 		}
+		if rng.Intn(6) == 0 {
+			// an insertion that is computed but never persisted (its apply was abandoned): the same versions are then
+			// given to the events of the committed log; nothing of the lost call may survive in the tree's caches
+			var lost []hashing.Digest
+			for j := 0; j < k; j++ {
+				lost = append(lost, hashing.NewSha256Hasher().Do([]byte(fmt.Sprintf("lost-%d-%d", v, j))))
+			}
+			if k == 1 {
+				tree.Add(lost[0], v)
+			} else {
+				tree.AddBulk(lost, v)
+			}
+			split = append(split, fmt.Sprintf("lost%d", k))
+		}
 		if k == 1 && rng.Intn(2) == 0 {
 			d, muts, err := tree.Add(events[v], v)
 			if err != nil {
